@@ -379,6 +379,16 @@ class ContentElement:
       if self.get_doc().get_region(region.get_id()) is not region:
         raise ValueError("Region is unknown")
 
+    # pylint: disable=W0212
+
+    if self._region is not None:
+      self._region._users.discard(self)
+
+    if region is not None:
+      region._users.add(self)
+
+    # pylint: enable=W0212
+
     self._region = region
 
   def get_region(self) -> typing.Optional[Region]:
@@ -845,6 +855,10 @@ class Region(ContentElement):
 
     self._id = str(region_id)
 
+    # elements that reference the region
+
+    self._users = set()
+
   def copy_to(self, dest: Region):
     dest.set_lang(self.get_lang())
     dest.set_space(self.get_space())
@@ -1072,14 +1086,11 @@ class ContentDocument(Document):
     if region is None:
       return
 
-    # removes the region from all content elements
+    # removes the region from all content elements of the document, whether or not they are under the body
 
-    body = self.get_body()
-
-    if body is not None: 
-      for e in body.dfs_iterator():
-        if e.get_region() is not None and e.get_region().get_id() == region_id:
-          e.set_region(None)
+    for e in list(region._users): # pylint: disable=W0212
+      if e.get_doc() is self:
+        e.set_region(None)
 
     del self._regions[region_id]
 
